@@ -60,6 +60,15 @@ def programs(rng, tier):
             out.append({"src": IMPORTS + "".join(body[i:i + 6]), "include": None, "config": None})
     for s in STMTS:
         out.append({"src": IMPORTS + s, "include": None, "config": None})
+    # the same material under selections that leave some node type of the built-in blacklist check without a rule, keep
+    # one plugin only, or skip whole groups: no selection may make a check raise
+    sel_srcs = [IMPORTS + "pickle.loads(x)\nsubprocess.Popen(c, shell=True)\nimport telnetlib\nfrom xml import sax\n__import__('ftplib')\n",
+                "import os\nfrom os import path as p\nimport importlib\nimportlib.import_module('pickle')\neval(x)\nassert y\n"]
+    sels = [(["B301", "B602"], None), (["B401"], None), (["B001", "B101"], None), (None, ["B401", "B402", "B403", "B404", "B405", "B406", "B407", "B408", "B409",
+            "B410", "B411", "B412", "B413", "B415"]), (None, ["B001"]), (["B307"], ["B301"]), (None, ["B301", "B302", "B303", "B304", "B305", "B306", "B307"])]
+    for src in sel_srcs:
+        for inc, exc in sels:
+            out.append({"src": src, "include": inc, "exclude": exc, "config": None})
     ex = sorted(glob.glob(os.path.join(os.environ.get("VERIF_REPO", "/repo"), "examples", "*.py")))
     for f in (ex if tier == "thorough" else rng.sample(ex, 12)):
         try:
